@@ -114,6 +114,8 @@ async fn create_topic(
         })?;
     command.message_expiry = topic.message_expiry;
     command.max_topic_size = topic.max_topic_size;
+    // The journal must record the ID that was assigned, replay cannot re-derive it.
+    command.topic_id = Some(topic.topic_id);
     let response = Json(mapper::map_topic(topic).await);
 
     let system = system.downgrade();
